@@ -146,6 +146,18 @@ fn sizes_and_bases<V: VringT<dmn::Mem> + Clone + Send + Sync + 'static>(cfg: &Cf
             viol(cfg, "set_vring_base:next-avail", jo! {"base" => *base, "queue_next_avail" => s1[q].next_avail}, "bases");
             return;
         }
+        // the three configuration messages may come in any order: a size change after the base was set
+        // leaves the indexes alone
+        let new_size = if s1[q].size == 64 { 128u16 } else { 64 };
+        if w.fe().set_vring_num(q, new_size).is_err() {
+            viol(cfg, "set_vring_num:rejected", jo! {"size" => new_size}, "bases");
+            return;
+        }
+        let s2 = w.snap();
+        if s2[q].size != new_size || s2[q].next_avail != *base || s2[q].next_used != s1[q].next_used {
+            viol(cfg, "set_vring_num:size-change-altered-the-ring-indexes", jo! {"base" => *base, "new_size" => new_size, "queue_size" => s2[q].size, "queue_next_avail" => s2[q].next_avail, "next_used_before" => s1[q].next_used, "next_used_after" => s2[q].next_used}, "bases");
+            return;
+        }
         match w.fe().get_vring_base(q) {
             Ok(v) if v == *base as u32 => {}
             other => {
